@@ -252,6 +252,12 @@ func runProp(cfg *PropConfig, repo, verif string, overlay map[string][]byte, wor
 	if err := g.loadAssumed(filepath.Join(verif, "contracts", "assumed")); err != nil {
 		return runResult{err: err}
 	}
+	g.noAssume = map[string]bool{}
+	for _, k := range loadKnown(verif) {
+		if k.Status == "finding" && k.Obligation != "" {
+			g.noAssume[k.Obligation] = true
+		}
+	}
 	var all []*Obligation
 	var infos []FuncInfo
 	for _, t := range cfg.Functions {
@@ -430,6 +436,14 @@ func cmdCheck(args []string) int {
 			ob := &Obligation{Name: "selftest", Kind: "selftest", Result: "error", Output: fmt.Sprintf("%d must-fail patches were not detected (verifier too weak); see evidence", bad)}
 			rp := writeReplay(*verif, *prop, ob, nil)
 			fmt.Printf("VIOLATION property=%s replay=%s no-failing-input-found\n", *prop, rp)
+		}
+	}
+	// recorded findings that no contract decides (demonstrated by a failing test kept under /verif/audits): listed on
+	// every run, so that the record of what is known to fail is complete; they suppress nothing
+	for _, k := range known {
+		if k.Property == *prop && k.Status == "finding" && k.Obligation == "" {
+			fmt.Printf("KNOWN-FINDING: property=%s (no contract decides it) %s\n", *prop, k.What)
+			knownHit = append(knownHit, "(no contract decides it) "+k.What)
 		}
 	}
 	writeEvidence(evPath, cfg, *tier, seed, rr.obs, rr.infos, knownHit, selfRes, time.Since(t0).Seconds(), violations, vioNames, rr.g)
